@@ -493,6 +493,50 @@ func c18R6(e *Engine) {
 				e.fail("R6", e.fname(fn)+":writes-global:"+g.Name(), e.ipos(in), "%s through package-level variable %s after initialisation: the state is shared by every client in the process", kind, g.Name())
 			}
 		})
+		// … no append to a slice held in a package-level variable (with spare capacity the appended elements land in one
+		// backing array shared by every caller), and no method call on a package-level container of the sync package
+		// (sync.Map, sync.Pool: process-wide mutable state by construction)
+		instrs(fn, func(in ssa.Instruction) {
+			// a package-level slice handed out as the start of somebody's list
+			var handed ssa.Value
+			switch x := in.(type) {
+			case *ssa.MapUpdate:
+				handed = x.Value
+			case *ssa.Store:
+				if _, toLocal := x.Addr.(*ssa.Alloc); !toLocal {
+					handed = x.Val
+				}
+			}
+			if handed != nil {
+				if u, isU := strip(handed).(*ssa.UnOp); isU && u.Op == token.MUL {
+					if g, isG := u.X.(*ssa.Global); isG && e.roleOf(g.Pkg.Pkg) != "" {
+						if _, isSlice := u.Type().Underlying().(*types.Slice); isSlice {
+							n++
+							e.fail("R6", e.fname(fn)+":hands-out-global:"+g.Name(), e.ipos(in), "the slice held in package-level variable %s is stored as the start of a list: everything appended to such lists (up to its capacity) lands in one shared backing array, so the lists of different tables, calls and clients overwrite each other", g.Name())
+						}
+					}
+				}
+			}
+			c, ok := in.(*ssa.Call)
+			if !ok {
+				return
+			}
+			if staticCalleeName(c) == "builtin.append" {
+				if g := globalRoot(c.Call.Args[0]); g != nil && e.roleOf(g.Pkg.Pkg) != "" {
+					n++
+					e.fail("R6", e.fname(fn)+":appends-to-global:"+g.Name(), e.ipos(in), "append to the slice held in package-level variable %s: while it has spare capacity every append writes into the one backing array all callers share, so lists built from it overwrite each other", g.Name())
+				}
+				return
+			}
+			if callee := c.Call.StaticCallee(); callee != nil && callee.Signature.Recv() != nil && len(c.Call.Args) > 0 {
+				if g, isG := strip(c.Call.Args[0]).(*ssa.Global); isG && e.roleOf(g.Pkg.Pkg) != "" {
+					if nt := namedOf(g.Type()); nt != nil && nt.Obj().Pkg() != nil && nt.Obj().Pkg().Path() == "sync" && nt.Obj().Name() != "Once" {
+						n++
+						e.fail("R6", e.fname(fn)+":uses-global:"+g.Name(), e.ipos(in), "%s on the package-level %s %s: state that outlives a request and is shared by every client in the process (a result remembered for one request answers another)", callee.Name(), nt.Obj().Name(), g.Name())
+					}
+				}
+			}
+		})
 	}
 	// (b) no address into a singleton object escapes: types all of whose allocations happen in package init
 	singletonTypes := map[*types.Named]string{}
